@@ -377,7 +377,15 @@ type solveResult struct {
 	Ms     int64
 	Output string // raw output of the deciding solver (model for sat)
 	All    map[string]string
+	Second int    // thorough tier: further solvers/variants that gave the same definitive answer
+	Clash  string // thorough tier: a solver that gave the opposite definitive answer on the full query
 }
+
+// thoroughMode (check --tier thorough): after the first definitive answer the
+// other solvers get agreeGrace more to give a second opinion on the same query.
+var thoroughMode bool
+
+const agreeGrace = 3 * time.Second
 
 var solverSem = make(chan struct{}, 20) // concurrent solver processes
 
@@ -477,6 +485,25 @@ func solveOn(dir, name string, variants []queryVariant, timeoutS int, only []str
 		res.All[o.solver] = o.status
 		if o.definitive {
 			res.Status, res.Solver, res.Ms, res.Output = o.status, o.solver, o.ms, o.out
+			if thoroughMode {
+				// second opinions: wait a little for the remaining solvers
+				deadline := time.After(agreeGrace)
+			grace:
+				for got < njobs {
+					select {
+					case o2 := <-ch:
+						got++
+						res.All[o2.solver] = o2.status
+						if o2.definitive && o2.status == res.Status {
+							res.Second++
+						} else if o2.definitive && !strings.Contains(o2.solver, "+") && !strings.Contains(res.Solver, "+") {
+							res.Clash = o2.solver + ":" + o2.status
+						}
+					case <-deadline:
+						break grace
+					}
+				}
+			}
 			cancel()
 			break
 		}
